@@ -73,7 +73,24 @@ def _stmt(ex, st, a, weight):
         return [Alt(env, a.total + _expr_weight(ex, v, env, weight), a.guards)]
     if isinstance(st, ast.For):
         n = _range_count(ex, st.iter, env)
+        # counters updated by a loop-invariant amount in every iteration (`remaining -= m // k`): one generic iteration changes them by
+        # delta, the whole loop by n * delta
+        carried = {}
+        loop_names = {x.id for x in ast.walk(st.target) if isinstance(x, ast.Name)}
+        assigned_in = {x.id for b_ in st.body for x in ast.walk(b_) if isinstance(x, ast.Name) and isinstance(x.ctx, ast.Store)}
+        for b_ in st.body:
+            if isinstance(b_, ast.AugAssign) and isinstance(b_.op, (ast.Add, ast.Sub)) and isinstance(b_.target, ast.Name) \
+                    and isinstance(env.get(b_.target.id), R) \
+                    and not any(isinstance(x, ast.Name) and (x.id in loop_names or x.id in assigned_in) for x in ast.walk(b_.value)) \
+                    and sum(1 for y in st.body for x in ast.walk(y) if isinstance(x, ast.Name) and x.id == b_.target.id and isinstance(x.ctx, ast.Store)) == 1:
+                carried[b_.target.id] = env[b_.target.id]
         inner = count_calls(ex, st.body, env, weight, a.guards)
+        if carried and n is not None:
+            for b in inner:
+                for nm, before in carried.items():
+                    after = b.env.get(nm)
+                    if isinstance(after, R):
+                        b.env[nm] = before + n * (after - before)
         out = []
         if any(b.done for b in inner) or any(isinstance(x, (ast.Break, ast.Continue)) for b_ in st.body for x in ast.walk(b_)
                                              if not isinstance(b_, (ast.For, ast.While))) and any(not b.total.is_zero() for b in inner):
@@ -105,11 +122,31 @@ def _stmt(ex, st, a, weight):
         exits = any(isinstance(x, (ast.Return, ast.Raise)) for x in ast.walk(st))
         if no_calls and not touched and not exits:
             return [a]
+        # a test `E != 0` / `E == 0` / `E` on a counter: the arm where E is zero carries that fact (used by the caller to compare totals)
+        zero_on = None
+        zt = st.test
+        try:
+            if isinstance(zt, ast.Compare) and len(zt.ops) == 1 and ast.unparse(zt.comparators[0]) in ("0", "0.0"):
+                zv = ex.eval(zt.left, dict(env))
+                if isinstance(zv, R):
+                    zero_on = ("orelse", zv) if isinstance(zt.ops[0], ast.NotEq) else ("body", zv) if isinstance(zt.ops[0], ast.Eq) else None
+            elif isinstance(zt, ast.Name) and isinstance(env.get(zt.id), R):
+                zero_on = ("orelse", env[zt.id])
+        except Unsupported:
+            zero_on = None
         out = []
         for b in body:
-            out.append(Alt(b.env, a.total + b.total, b.guards + [("true", st.test)], b.done))
+            e_ = b.env
+            if zero_on and zero_on[0] == "body":
+                e_ = dict(e_)
+                e_["__zero__"] = list(e_.get("__zero__", [])) + [zero_on[1]]
+            out.append(Alt(e_, a.total + b.total, b.guards + [("true", st.test)], b.done))
         for b in orelse:
-            out.append(Alt(b.env, a.total + b.total, b.guards + [("false", st.test)], b.done))
+            e_ = b.env
+            if zero_on and zero_on[0] == "orelse":
+                e_ = dict(e_)
+                e_["__zero__"] = list(e_.get("__zero__", [])) + [zero_on[1]]
+            out.append(Alt(e_, a.total + b.total, b.guards + [("false", st.test)], b.done))
         return out
     if isinstance(st, ast.While):
         inner = count_calls(ex, st.body, env, weight, a.guards)
